@@ -891,6 +891,11 @@ def check(program, rep):
     rep.guard("C09-R3", r3_ids, program, folder, rep)
     rep.guard("C09-R4", r4_retry, program, rep)
     rep.guard("C09-R5", r5_link, program, rep)
+    # arguments handed to package functions under the wrong name / same-
+    # named optional parameters not passed on (NAMELINK, DESIGN.md 9.13)
+    from .. import namelink as _nl
+    rep.guard("C09-R6", _nl.rule, program, rep, "C09-R6",
+              [m for m in sorted(program.modules) if m.startswith("rig.machine_control")])
     return finish(rep, program, EXPLANATION, NOT_DECIDED,
                   trusted=["documented flood-fill command word layouts",
                            "LININV engine axioms"])
